@@ -316,24 +316,31 @@ def doc_of(tz, w, wn):
 
 
 def holder_trace_repro(ctx, rows, bad):
-    """Re-run each rejected step alone: new server, the schedule observed before
-    the step, the same document; reproduced = the same observation again."""
-    out = []
-    for i in bad[:60]:
+    """Re-run each rejected step alone (one batch): new server, the schedule
+    observed before the step, the same document; reproduced = the same
+    observation again."""
+    walk, recs = [], []
+    for i in bad[:300]:
         row = rows[i - 1]
         prev = rows[i - 2] if i >= 2 and rows[i - 2].get("k") == "put" else None
-        walk = [{"reset": True}]
+        walk.append({"reset": True})
         prevdoc = doc_of(prev["gtz"], prev["gw"], prev["gwn"]) if prev else BOOT
         if prevdoc["tz"] != "Local":
-            walk.append({"i": 1, "doc": prevdoc, "out": "", "eff": []})
+            walk.append({"i": -i, "doc": prevdoc, "out": "", "eff": []})
         doc = doc_of(row["tz"], row["w"], row["wn"])
-        walk.append({"i": 2, "doc": doc, "out": "", "eff": [[p[0], p[2]] for p in row["probes"]]})
-        obs, _ = go_holder(ctx, walk, tag="t%d" % i)
-        o = next((x for x in obs if x.get("kind") == "obs" and x.get("i") == 2), None)
+        walk.append({"i": i, "doc": doc, "out": "", "eff": [[p[0], p[2]] for p in row["probes"]]})
         got = doc_of(row["gtz"], row["gw"], row["gwn"])
+        recs.append((i, row, got, {"what": "holder-trace", "trace_line": i, "src": prevdoc, "doc": doc,
+                                   "got_ok": bool(row["ok"]), "got_dst": got, "probes": row["probes"],
+                                   "want_out": "see TraceScheduleHolder", "want_dst": None}))
+    if not walk:
+        return []
+    obs, _ = go_holder(ctx, walk, tag="t")
+    byi = {x.get("i"): x for x in obs if x.get("kind") == "obs"}
+    out = []
+    for i, row, got, rec in recs:
+        o = byi.get(i)
         same = o is not None and o["ok"] == row["ok"] and o["get"] == got and not o.get("eff")
-        rec = {"what": "holder-trace", "trace_line": i, "src": prevdoc, "doc": doc, "got_ok": bool(row["ok"]),
-               "got_dst": got, "probes": row["probes"], "want_out": "see TraceScheduleHolder", "want_dst": None}
         out.append((rec, same))
     return out
 
@@ -393,6 +400,16 @@ def trace_case(row):
     tr = [{"at": row["s"] - len(offs) + i, "off": o} for i, o in enumerate(offs[1:])]
     tr.append({"at": row["s"] - 1, "off": row["off"]})
     return {"z": {"base": offs[0], "trans": tr}}
+
+
+def report(ctx, key, rec, desc):
+    """ctx.disagreement with a cap per kind of disagreement, so that the replay
+    files that vlib keeps (the first 200) show every kind; all are counted."""
+    kind = str(rec.get("what"))
+    n = ctx.cov.setdefault("disagreements_by_kind", {})
+    n[kind] = n.get(kind, 0) + 1
+    if n[kind] <= 30:
+        ctx.disagreement(key, rec, desc)
 
 
 # ------------------------------------------------------------------------ run
@@ -459,7 +476,7 @@ def run(ctx):
         k = classify(r, cmap)
         if k:
             known_rows += 1
-        ctx.disagreement(k, r, describe(r))
+        report(ctx, k, r, describe(r))
     arows, asumm = go_apply(ctx, vin, every=max(1, n_rows // (4000 if ctx.quick else 40000)))
     if asumm["evals"] < 200 or asumm["skipped"] > asumm["evals"] // 20:
         raise vlib.Inconclusive("filtering path evaluated only %d instants (%d skipped)" % (asumm["evals"], asumm["skipped"]))
@@ -472,7 +489,7 @@ def run(ctx):
         k = classify(r, cmap)
         if k:
             known_apply += 1
-        ctx.disagreement(k, r, describe(r))
+        report(ctx, k, r, describe(r))
 
     # ---- 3b. the schedule in effect under a history of updates (ScheduleHolder.tla)
     hgen = ctx.tlc("ScheduleHolder", "ScheduleHolder.gen.cfg", workers=4, timeout=600)
@@ -482,12 +499,12 @@ def run(ctx):
         raise vlib.Inconclusive("vacuous: holder spec emitted %d edges, %d rejected" % (len(edges), n_rej))
     walk = holder_walk(ctx, edges)
     hrows, hsumm = go_holder(ctx, walk)
-    if hsumm["steps"] != len([x for x in walk if not x.get("reset")]) or any(r.get("kind") == "skip" for r in hrows):
+    if hsumm["steps"] + hsumm["truncated"] != len([x for x in walk if not x.get("reset")]) or any(r.get("kind") == "skip" for r in hrows):
         raise vlib.Inconclusive("holder walk: %s of %d steps, skips %s" % (
             hsumm["steps"], len(walk), [r for r in hrows if r.get("kind") == "skip"][:2]))
     for r in hrows:
         if r.get("kind") == "bad":
-            ctx.disagreement(None, r, holder_describe(r))
+            report(ctx, None, r, holder_describe(r))
     htrows, htbad = holder_trace(ctx)
     hunrepro = 0
     for rec, same in holder_trace_repro(ctx, htrows, htbad):
@@ -495,7 +512,7 @@ def run(ctx):
             hunrepro += 1
             ctx.notes.append("holder trace line %d not reproduced in isolation" % rec["trace_line"])
             continue
-        ctx.disagreement(None, rec, holder_describe(rec))
+        report(ctx, None, rec, holder_describe(rec))
     if hunrepro > 3:
         raise vlib.Inconclusive("%d rejected holder trace lines did not reproduce" % hunrepro)
 
@@ -534,7 +551,7 @@ def run(ctx):
             k = classify(rec, {rec["c"]: trace_case(row)}) if row["k"] == "eval" else None
             if k:
                 tknown += 1
-            ctx.disagreement(k, rec, describe(rec))
+            report(ctx, k, rec, describe(rec))
     if tunrepro > 5:
         raise vlib.Inconclusive("%d rejected trace lines did not reproduce" % tunrepro)
 
@@ -549,7 +566,8 @@ def run(ctx):
         "traces_validated_against_impl": summ["lines"] + summ["sers"] + asumm["evals"] + len(trows) + 1 + len(htrows),
         "evaluations": summ["evals"] + summ["sers"] + asumm["evals"] + len(trows) + hsumm["steps"] + len(htrows),
         "holder_edges": len(edges), "holder_edges_rejected": n_rej, "holder_walk_steps": hsumm["steps"],
-        "holder_walk_resyncs": hsumm["resyncs"], "holder_trace_lines": len(htrows),
+        "holder_walk_resyncs": hsumm["resyncs"], "truncated_by_disagreements": hsumm["truncated"],
+        "disagreements_by_kind": ctx.cov.get("disagreements_by_kind", {}), "holder_trace_lines": len(htrows),
         "holder_trace_lines_rejected": len(htbad),
         "distinct_nontrivial": nontriv,
         "rule": "one evaluation = one (zone, schedule, instant) row of a TLC verdict table replayed into the real "
